@@ -23,6 +23,7 @@ def iter : Nat → Nat → Bytes → Bytes → String
 def handle (line : String) : String :=
   let o := parseOp line
   match o.cmd with
+  | "consts" => s!"scalar=32 point=32 base={toHex basePoint}"
   | "x" =>
     match o.hex? "s", o.hex? "p", o.hex? "d", o.nat? "alias" with
     | some s, some pt, some d, some al =>
